@@ -123,6 +123,8 @@ class W4Device(object):
         self.closed = False
         self.unsupported = set()        # of 'A','B','F','dep','listen'
         self.sense_fault = {}           # index of sense_* call -> exception factory
+        self.activation_fault = None    # (exception factory, how many activations) : air error on the first command after discovery
+        self.exch_since_found = 0
         self.nsense = 0
         self.calls = []                 # (t, name, detail)
         self.exchanges = 0
@@ -193,6 +195,7 @@ class W4Device(object):
             if rsp is None:
                 continue
             self.active = t
+            self.exch_since_found = 0
             rsp = dict(rsp)
             brty = rsp.pop("brty", target.brty)
             found = clf.RemoteTarget(brty, **rsp)
@@ -256,6 +259,15 @@ class W4Device(object):
         self.k.time.sleep(0.0008)
         self._sync()
         tag = self.active
+        j = self.exch_since_found
+        self.exch_since_found += 1
+        if j == 0 and self.activation_fault is not None and self.activation_fault[1] > 0 and self.powered:
+            # the answer to the first command after discovery (RATS, ATTRIB, READ, ...) is hit by an air interface error
+            self.activation_fault = (self.activation_fault[0], self.activation_fault[1] - 1)
+            if tag is not None and data is not None:
+                tag.command(bytes(data))
+            self._note("activation_fault")
+            raise self.activation_fault[0]()
         rsp = None
         if self.powered and tag is not None and data is not None:
             rsp = tag.command(bytes(data))
